@@ -185,6 +185,7 @@ Definition api_call (me : nat) (code : Z) (s : list Z) (d : drv) (w : world)
                  end
        end) (Z.to_nat n) t []
   | 64, t => r0 pr_bool (rpd (WB me)) t
+  | 65, b :: t => r0 pr_unit (set_ce (WB me) (boolz b)) t
   | _, _ => None
   end.
 
